@@ -333,6 +333,11 @@ def check(ctx, rep):
     from rules.props import c07
     rep.rule('R04.i', 'every task that leaves a command — finished, aborted or evicted — publishes `finished` and wakes its join handles', floor=2)
     c07.check_finish_notify(rep, 'R04.i', core)
+    # R04.k: the combinators host commands inside tasks; a hosting task is kept alive only by its wakers doing the whole job however they
+    # are woken (shared with C05 R05.b)
+    from rules.props import c05 as _c05
+    rep.rule('R04.k', 'every way of waking a task waker enqueues the task, marks it woken and wakes the parent, on every path', floor=5)
+    _c05.check_wake_impls(rep, 'R04.k', core, rep_ctx_time(core))
     # R04.j: hosting forwards every output: the hosted stream yields while anything is queued (shared with C07 R07.e)
     rep.rule('R04.j', 'a hosted command yields an item whenever one is queued: Pending only after both output queues were found empty, end only when done', floor=3)
     c07.check_stream_end(rep, 'R04.j', core)
